@@ -11,7 +11,7 @@ FUNCTIONS = ["StockDrivenDSM._compute_inflow_manual", "StockDrivenDSM._compute_i
 ASSUMPTIONS = ["every cohort's first-interval survival share >= 1/20 (the property's precondition)", "time items strictly increasing",
                "scipy.linalg.solve_triangular satisfies its documented contract (fresh x with tri(a) x = b); LAPACK itself is trusted"]
 OUTSIDE = ["n beyond the bound", "IEEE rounding / conditioning of the triangular solve"]
-VARIANTS = 'arrays as transposed views; shared lifetime object re-parameterised between the constructions; stock-driven model computed (and read) before; 17 and 33 time items on concrete 0/1 tables; the inflow-driven model converted from the computed stock-driven one / computed before / built on filled arrays'
+VARIANTS = 'arrays as transposed views; shared lifetime object re-parameterised between the constructions; stock-driven model computed (and read) before; 17 and 33 time items on concrete 0/1 tables; the inflow-driven model converted from the computed stock-driven one / computed before / built on filled arrays; a label dimension lettered c and as long as the time dimension'
 BOUNDS = {"quick": dict(n=[3, 4], extra=["-", "r2"], grids=dsm.GRIDS), "thorough": dict(n=[3, 4, 5, 6], extra=["-", "r2", "r2xp2"], grids=dsm.GRIDS)}
 for _t in BOUNDS.values():
     _t["variants_beyond_the_base_enumeration"] = VARIANTS
@@ -51,6 +51,9 @@ def configs(tier, seed):
         for extra in ({}, {"r": 2}):
             ek = "x".join(f"{l}{k}" for l, k in extra.items()) or "-"
             out.append(dict(h="in_to_stock_to_in", op=solver + "again", key=f"in_to_stock_to_in/{solver}/grid=uneven/n=3/extra={ek}/stock_driven_model_computed_before", solver=solver, grid="uneven", n=3, extra=extra, again=True))
+    # a label dimension lettered c (as in "cohort") and as long as the time dimension
+    for solver in ("manual", "lapack"):
+        out.append(dict(h="stock_to_in_to_stock", op=solver + "c", key=f"stock_to_in_to_stock/{solver}/grid=uneven/n=3/extra=c3", solver=solver, grid="uneven", n=3, extra={"c": 3}))
     # the inflow-driven model does not start from fresh zero arrays: converted from the computed stock-driven model,
     # computed before with another inflow, or built on arrays that hold old results
     for solver in ("manual", "lapack"):
